@@ -264,6 +264,10 @@ def check_C06(chk):
     p, info = gen_net_trace("c06_burst", "ws", chk.seed * 100 + 51, sessions=0, nbytes=100, writes=False, burst=600 if thorough else 400)
     chk.extra["burst"] = info
     trace_validate(chk, "c06_burst_tv", p, "websocket burst under back pressure", inv_every=25)
+    # real UDP sockets: each write is one datagram; and when the kernel refuses a datagram (the peer's port was closed a moment ago)
+    # the write that returns Ok has sent its frame, the write that is refused says so
+    p, info = gen_net_trace("c06_udp", "udp", chk.seed * 100 + 61, sessions=4, nbytes=1500, writes=True)
+    trace_validate(chk, "c06_udp_tv", p, "UDP session with writes and a refused datagram")
     for i in range(4 if thorough else 1):
         p, info = gen_trace(f"c06_trace{i}", chk.seed * 100 + i, sessions=8, frames=80, writes=True, extra=["--noka", "1"])
         if i == 0:
